@@ -9,6 +9,7 @@ import Cte.Model.Purge
 import Cte.Model.Energy
 import Cte.Model.RadTable
 import Cte.Model.Bvh
+import Cte.Model.BvhIter
 import Cte.Model.Box
 import Cte.Model.Ray
 import Cte.Model.Fshobst
@@ -174,13 +175,23 @@ def v3Of (j : J) : Option V3 :=
   | [a, b, c] => some ⟨a, b, c⟩
   | _ => none
 
+/-- pre-order fingerprint of a tree: -1 for an inner node, the element count for a leaf -/
+def treeShape : Bvh.Tree Box3 (Option Box3) → List J
+  | .leaf _ es => [J.num false es.length 0]
+  | .node _ l r => J.num true 1 0 :: (treeShape l ++ treeShape r)
+
 /-- op `bvh`: boxes as elements, leaf size, rays → accelerated and exhaustive answers of the model -/
 def opBvh (req : J) : J :=
   let boxes := match req.get? "boxes" with | some (J.arr l) => l.filterMap box3Of | _ => []
   let rays := match req.get? "rays" with | some (J.arr l) => l.filterMap rayOf | _ => []
   let k := match req.get? "leaf" with | some (J.num false m 0) => m | _ => 30
-  let tree := Bvh.build boxOps k boxes
-  J.obj [("bvh", J.arr (rays.map (fun r => J.bool (Bvh.walk boxOps r [tree])))),
+  -- the code-shaped path: generate_node_list, build_from_node_list, explicit-stack walk (Props/C13Iter: equal to build + query)
+  let answers := rays.map (fun r => Bvh.codeIntersects boxOps k r boxes)
+  let shape : List J := match Bvh.reconstruct boxOps (Bvh.generate boxOps k boxes) with
+    | some (some t) => treeShape t
+    | _ => []
+  J.obj [("bvh", J.arr (answers.map (fun a => match a with | some b => J.bool b | none => J.str "panic"))),
+         ("shape", J.arr shape),
          ("exhaustive", J.arr (rays.map (fun r => J.bool (boxes.any (fun b => b.hit r)))))]
 
 /-- op `raypoly`: polygon, inverse pose, rays → hit parameter or null, and the squared distance of the
